@@ -85,7 +85,10 @@ def unit(root='/repo'):
                     && (if v.lookups.cur() == 0 { r == Some(v) && final(self).deleted@ == old(self).deleted@.remove(inode) } else { r is None && final(self).deleted@ == old(self).deleted@ }) }) // [C10.inodes.remove.delayed]''',
                '!old(self).used(inode) ==> r is None && final(self).inodes@ == old(self).inodes@ && final(self).deleted@ == old(self).deleted@ // [C10.inodes.remove.absent]',
                'forall|i: Inode| i != inode ==> (#[trigger] final(self).used(i) == old(self).used(i)) // [C10.inodes.remove.others] no other number changes its status',
-               'final(self).next_inode == old(self).next_inode'],
+               'final(self).next_inode == old(self).next_inode',
+               # a path that no longer names the inode gives up its reserved number AT ONCE - also when the inode itself has to wait for its last reference:
+               # otherwise the next file created at that path gets the number of an inode the client still holds (two files, one number)
+               'final(self).path_mapping@ == (match path_removed { Some(p) => old(self).path_mapping@.remove(p@), None => old(self).path_mapping@ }) // [C10.inodes.remove.reservation]'],
            splices=[('^', 'after', B + ' broadcast use axiom_arc_cloned;')]),
     ]
     items = [Raw(PRE), Copy(IS, r'pub struct InodeStore\b'), Group('impl InodeStore {', fns)]
